@@ -59,3 +59,8 @@ def nontrivial(case, om, oi):
 
 def outcome(case, om, oi):
     return om.split(":")[0] + ":" + case.split(" ")[1]
+
+
+def impl_skip(case, om):
+    """the model predicts that the call does not return (zero-time cycle, finding D8)"""
+    return "noprogress" in om
